@@ -64,16 +64,13 @@ Definition c08_numops : numops :=
   NumOps ctx_round_ext nullop_prov unop_ext binop_ext ternop_ext pred_prov num_compare ctor_prov.
 
 (* ---------------------------------------------------------------- the hypothesis of the theorems *)
-(* "a holds the integer z" *)
-Definition holds_int (x : num) (z : Z) : Prop := num_to_Z x = Some z.
-
-(* Under the INTEGER context, +, - and fmod of non-negative integers are exact,
-   whatever representation the operands have; comparison of integers is exact. *)
+(* Under the INTEGER context, +, - and fmod of small non-negative integers (as `len`, integer literals and
+   `range` produce them) are exact, and integers compare exactly. *)
 Record int_exact (N : numops) : Prop := IntExact {
-  ie_add : forall x y a b, holds_int x a -> holds_int y b -> 0 <= a -> 0 <= b ->
-      exists r, n_binop N OAdd CInteger x y = Ok r /\ holds_int r (a + b);
-  ie_sub : forall x y a b, holds_int x a -> holds_int y b -> 0 <= b <= a ->
-      exists r, n_binop N OSub CInteger x y = Ok r /\ holds_int r (a - b);
-  ie_fmod : forall x y a k, holds_int x a -> holds_int y k -> 0 <= a -> 0 < k ->
-      exists r, n_binop N OFmod CInteger x y = Ok r /\ holds_int r (a mod k);
-  ie_cmp : forall x y a b, holds_int x a -> holds_int y b -> n_cmp N x y = Some (a ?= b) }.
+  ie_add : forall a b, 0 <= a -> 0 <= b ->
+      n_binop N OAdd CInteger (num_of_Z a) (num_of_Z b) = Ok (num_of_Z (a + b));
+  ie_sub : forall a b, 0 <= b <= a ->
+      n_binop N OSub CInteger (num_of_Z a) (num_of_Z b) = Ok (num_of_Z (a - b));
+  ie_fmod : forall a k, 0 <= a -> 0 < k ->
+      n_binop N OFmod CInteger (num_of_Z a) (num_of_Z k) = Ok (num_of_Z (a mod k));
+  ie_cmp : forall a b, n_cmp N (num_of_Z a) (num_of_Z b) = Some (a ?= b) }.
